@@ -25,3 +25,47 @@ package fasthttp
 //@   on call bytes.Reader.Size -> n:
 //@     nohavoc
 //@     returns pf
+
+// requestStream.Read never takes more from the connection than the body holds: a chunked body is read at most to
+// the end of the current chunk, a fixed-length body at most Content-Length bytes in total (prefetched bytes first).
+// The slices handed to the readers stay inside p.
+//@ func requestStream.Read results n err
+//@   property C02 C34 C08
+//@   mode skeleton
+//@   safety C08
+//@   nooverflow
+//@   ghost cl int
+//@   ghost pf int
+//@   ghost wire int = 0
+//@   on call bodyStreamHeader.ContentLength -> c:
+//@     nohavoc
+//@     returns cl
+//@   on call bytes.Reader.Size -> s:
+//@     nohavoc
+//@     returns pf
+//@   on call parseChunkSize -> size, e:
+//@     nohavoc
+//@     ensures e == nil ==> size >= 0
+//@   on call bodyStreamHeader.ReadTrailer -> e:
+//@     nohavoc
+//@   on call readCrLf -> e:
+//@     nohavoc
+//@   on call bufio.Reader.Read#1(_, b) -> k, e:
+//@     nohavoc
+//@     requires[within-current-chunk] len(b) <= rs.chunkLeft
+//@     effect wire = wire + k
+//@     ensures 0 <= k && k <= len(b)
+//@   on call bytes.Reader.Read(_, b) -> k, e:
+//@     nohavoc
+//@     requires[within-prefetched] len(b) <= pf - rs.totalBytesRead
+//@     ensures 0 <= k && k <= len(b)
+//@   on call bufio.Reader.Read#2(_, b) -> k, e:
+//@     nohavoc
+//@     requires[within-content-length] cl >= 0 ==> len(b) <= cl - rs.totalBytesRead
+//@     effect wire = wire + k
+//@     ensures 0 <= k && k <= len(b)
+//@   end
+//@   requires[fixed-length-state] cl >= 0 ==> 0 <= rs.totalBytesRead && rs.totalBytesRead <= cl && pf <= cl
+//@   requires[chunk-state] rs.chunkLeft >= 0
+//@   ensures[state-kept] (cl >= 0 ==> rs.totalBytesRead <= cl) && rs.chunkLeft >= 0
+//@   ensures[result-in-range] 0 <= n && n <= len(p)
